@@ -10,16 +10,51 @@ package main
 // one-array discipline) and reports, per test name, the body events in C14's canonical form.
 
 import (
+	"bytes"
 	"encoding/json"
 	"fmt"
+	"sort"
 	"strings"
 
 	"connectrpc.com/conformance/internal/verifharness/gen"
+	"golang.org/x/net/http2"
 )
 
+// c14H2Frame is a frame of the exchange as the sender describes it: a c15Frame, and for a DATA
+// frame optionally the PADDED flag with the padding octets (RFC 9113 6.1: Pad Length octet in
+// front of the data, padding behind it; neither is body).  Padded = true with PadX = "" is the
+// PADDED flag with Pad Length 0.  The padding octets are arbitrary (a receiver does not check
+// them): zeros, random bytes, bytes that look like envelopes.
+type c14H2Frame struct {
+	c15Frame
+	Padded bool   `json:"padded,omitempty"`
+	PadX   string `json:"padx,omitempty"`
+}
+
+// c14H2Lower turns the described frames into what c15Build puts on the wire: a padded DATA frame
+// becomes the raw bytes the real Framer writes for it (WriteDataPadded, non-nil padding).
+func c14H2Lower(frames []c14H2Frame) []c15Frame {
+	out := make([]c15Frame, len(frames))
+	for i, f := range frames {
+		out[i] = f.c15Frame
+		if f.T != "D" || !f.Padded {
+			continue
+		}
+		var buf bytes.Buffer
+		fr := http2.NewFramer(&buf, nil)
+		fr.AllowIllegalWrites = true
+		pad := append([]byte{}, c15Unhex(f.PadX)...) // non-nil: the PADDED flag is set also for no padding octets
+		if err := fr.WriteDataPadded(f.ID, f.ES, c15Unhex(f.X), pad); err != nil {
+			panic("padded DATA frame: " + err.Error())
+		}
+		out[i] = c15Frame{D: f.D, T: "X", ID: f.ID, X: gen.Hex(buf.Bytes())}
+	}
+	return out
+}
+
 type c14H2In struct {
-	Server bool       `json:"server"`
-	Frames []c15Frame `json:"frames"`
+	Server bool         `json:"server"`
+	Frames []c14H2Frame `json:"frames"`
 	Calls  [][]any    `json:"calls"`
 	Reuse  int        `json:"reuse,omitempty"`
 	Note   string     `json:"note,omitempty"`
@@ -45,7 +80,7 @@ func init() {
 }
 
 func c14H2(in *c14H2In) c14H2Out {
-	res := c15Conn(&c15In{Server: in.Server, Legal: true, Frames: in.Frames, Calls: in.Calls, Reuse: in.Reuse})
+	res := c15Conn(&c15In{Server: in.Server, Legal: true, Frames: c14H2Lower(in.Frames), Calls: in.Calls, Reuse: in.Reuse})
 	out := c14H2Out{Traces: []c14H2Trace{}, Transparent: res.Transparent, Viol: res.Viol, Slow: res.Slow}
 	errCls := func(v any) string {
 		if c15Str(v) == "nil" {
@@ -100,21 +135,24 @@ func c14H2Cases(c *gen.Ctx) {
 	}
 	n := 0
 	sid := uint32(1)
-	emit := func(server bool, frames []c15Frame, part func(int, int) []int, note string) {
+	emit := func(server bool, frames []c15Frame, part func(int, int) []int, note string, scheme int) {
 		n++
 		for i := range frames {
 			if frames[i].T != "G" {
 				frames[i].ID = sid
 			}
 		}
-		_, _, lens := c15Build(frames)
-		calls := append(c15Calls(server, c15Runs(frames, lens), part), c15Close...)
-		in := c14H2In{Server: server, Frames: frames, Calls: calls, Note: note}
+		described := c14H2Pad(r, frames, scheme)
+		wire := c14H2Lower(described)
+		_, _, lens := c15Build(wire)
+		calls := append(c15Calls(server, c15Runs(wire, lens), part), c15Close...)
+		in := c14H2In{Server: server, Frames: described, Calls: calls, Note: note}
 		if n%2 == 0 {
 			in.Reuse = 1 + n%3
 		}
 		c14Do(c, "h2", in)
 		e.Count("h2:" + note)
+		e.Count("h2:padding:" + c14H2PadSchemes[scheme])
 	}
 	parts := []func(int, int) []int{c15Whole, c15Fixed(1), c15Fixed(3), c15RandPart(r), c15Fixed(7)}
 	k := 0
@@ -161,7 +199,12 @@ func c14H2Cases(c *gen.Ctx) {
 						// the client goes on sending after the stream is gone
 						frames = append(frames, c15D("q", reqBody[cut:], true))
 					}
-					emit(server, frames, parts[k%len(parts)], ending)
+					// every third exchange: its DATA frames padded, the scheme changing from case to case
+					scheme := 0
+					if k%3 == 2 {
+						scheme = 1 + (k/3)%(len(c14H2PadSchemes)-1)
+					}
+					emit(server, frames, parts[k%len(parts)], ending, scheme)
 				}
 			}
 		}
@@ -210,11 +253,176 @@ func c14H2Cases(c *gen.Ctx) {
 						} else if last > id {
 							rel = "above"
 						}
-						emit(server, frames, parts[k%len(parts)], "goaway-last-"+rel)
+						scheme := 0
+						if k%4 == 1 {
+							scheme = 1 + (k/4)%(len(c14H2PadSchemes)-1)
+						}
+						emit(server, frames, parts[k%len(parts)], "goaway-last-"+rel, scheme)
 					}
 				}
 			}
 		}
 	}
 	sid = 1
+	// ---- padded DATA frames x how the bodies are cut into DATA frames relative to the envelopes: the whole
+	// body in one frame, one frame per message, prefix and payload in frames of their own, cuts in the
+	// middle of prefixes and payloads, every byte in a frame of its own, empty frames in between, random
+	// cuts; x every padding scheme; x how the directions end (END_STREAM on the last data-bearing frame /
+	// on a padded EMPTY frame / by trailers); x both sides
+	layouts := []struct {
+		name string
+		cuts func(body []byte, bounds []int) []int
+	}{
+		{"whole", func(b []byte, _ []int) []int { return nil }},
+		{"per-message", func(_ []byte, bounds []int) []int { return bounds }},
+		{"prefix-payload", func(_ []byte, bounds []int) []int {
+			out, prev := []int{}, 0
+			for _, b := range bounds {
+				out = append(out, prev+5, b)
+				prev = b
+			}
+			return out
+		}},
+		{"mid-prefix-mid-payload", func(_ []byte, bounds []int) []int {
+			out, prev := []int{}, 0
+			for i, b := range bounds {
+				out = append(out, prev+1+i%4, b-1)
+				prev = b
+			}
+			return out
+		}},
+		{"every-byte", func(b []byte, _ []int) []int {
+			out := []int{}
+			for i := 1; i < len(b); i++ {
+				out = append(out, i)
+			}
+			return out
+		}},
+		{"empty-frames", func(_ []byte, bounds []int) []int {
+			out := []int{0}
+			for _, b := range bounds {
+				out = append(out, b, b)
+			}
+			return out
+		}},
+		{"random", func(b []byte, _ []int) []int {
+			out := []int{}
+			for i := 0; i < 3; i++ {
+				out = append(out, r.Intn(len(b)+1))
+			}
+			sort.Ints(out)
+			return out
+		}},
+	}
+	cutUp := func(body []byte, cuts []int) [][]byte {
+		out, prev := [][]byte{}, 0
+		for _, at := range cuts {
+			if at < prev {
+				at = prev
+			}
+			if at > len(body) {
+				at = len(body)
+			}
+			out = append(out, body[prev:at])
+			prev = at
+		}
+		return append(out, body[prev:])
+	}
+	reqBounds := []int{7}      // reqBody: a 2-byte and a 6-byte message
+	respBounds := []int{8, 17} // respMsgs: 3, 4 and (end-stream) 2 bytes
+	for li, lay := range layouts {
+		for scheme := 1; scheme < len(c14H2PadSchemes); scheme++ {
+			for end := 0; end < 3; end++ {
+				for _, server := range []bool{false, true} {
+					k++
+					if !c.Thorough() && (li+scheme+end)%2 == 1 && scheme > 4 {
+						continue
+					}
+					qct := reqCTs[k%3]
+					pct := []string{"application/grpc", "application/connect+proto", "application/grpc-web+proto"}[(k/3)%3]
+					frames := []c15Frame{c15H("q", c15ReqFields("h2", qct, "/svc.S/M"), false)}
+					qp := cutUp(reqBody, lay.cuts(reqBody, reqBounds))
+					for i, p := range qp {
+						frames = append(frames, c15D("q", p, end == 0 && i == len(qp)-1))
+					}
+					switch end {
+					case 1:
+						frames = append(frames, c15D("q", nil, true)) // END_STREAM on an empty DATA frame
+					case 2:
+						frames = append(frames, c15H("q", [][2]string{{"x-req-trailer", "t"}}, true))
+					}
+					frames = append(frames, c15H("p", c15RespFields("200", pct), false))
+					pp := cutUp(respMsgs, lay.cuts(respMsgs, respBounds))
+					for i, p := range pp {
+						frames = append(frames, c15D("p", p, end == 0 && i == len(pp)-1))
+					}
+					switch end {
+					case 1:
+						frames = append(frames, c15D("p", nil, true))
+					case 2:
+						frames = append(frames, c15H("p", [][2]string{{"grpc-status", "0"}}, true))
+					}
+					emit(server, frames, parts[k%len(parts)], "padded:"+lay.name, scheme)
+				}
+			}
+		}
+	}
+}
+
+// c14H2PadSchemes: how the DATA frames of an exchange are padded
+var c14H2PadSchemes = []string{
+	"none",
+	"pad-length-0",     // PADDED flag, Pad Length octet 0, no padding octets
+	"pad-length-1",     // one zero octet
+	"pad-length-255",   // the maximum
+	"random",           // per frame: none, or a random length (0, 1, 2, 5, 17, 255, anything) of random octets
+	"envelope-like",    // padding octets that read as envelope prefixes / complete messages / end-stream messages
+	"ends-and-empties", // only the frames carrying END_STREAM and the empty frames are padded
+	"random-zeros",     // per frame a random number of zero octets
+}
+
+// c14H2Pad describes the padding of every DATA frame of the exchange according to the scheme.
+func c14H2Pad(r *gen.Rand, frames []c15Frame, scheme int) []c14H2Frame {
+	out := make([]c14H2Frame, len(frames))
+	envLike := [][]byte{
+		{0, 0, 0, 0, 1, 'A'}, {2, 0, 0, 0, 2, '{', '}'}, {0x80, 0, 0, 0, 0}, {1}, {0, 0, 0, 0, 0, 0, 0, 0, 0, 0}, {0, 0, 0, 1},
+		{3, 0xff, 0xff, 0xff, 0xff},
+	}
+	nd := 0
+	for i, f := range frames {
+		out[i] = c14H2Frame{c15Frame: f}
+		if f.T != "D" || scheme == 0 {
+			continue
+		}
+		nd++
+		var pad []byte
+		switch c14H2PadSchemes[scheme] {
+		case "pad-length-0":
+			pad = []byte{}
+		case "pad-length-1":
+			pad = make([]byte, 1)
+		case "pad-length-255":
+			pad = make([]byte, 255)
+		case "random":
+			if r.Chance(1, 3) {
+				continue
+			}
+			pad = make([]byte, gen.Pick(r, []int{0, 1, 2, 5, 17, 255, r.Intn(256)}))
+			for j := range pad {
+				pad[j] = byte(r.Intn(256))
+			}
+		case "envelope-like":
+			pad = envLike[(nd+i)%len(envLike)]
+		case "ends-and-empties":
+			if !f.ES && f.X != "" {
+				continue
+			}
+			pad = []byte{0xff, 0xff, 0xff}
+		case "random-zeros":
+			pad = make([]byte, r.Intn(40))
+		}
+		out[i].Padded = true
+		out[i].PadX = gen.Hex(pad)
+	}
+	return out
 }
